@@ -151,7 +151,6 @@ End MNTMOrder.
 
 Section MNTMOrderTop.
 Variable m : mntm.
-Hypothesis Hvalid : valid_mntm m = true.
 
 Lemma binv_start w : binv m (mt_start m w) 0 [] [mntm_start m w] [].
 Proof.
@@ -184,8 +183,7 @@ Proof.
   destruct o as [cl|e].
   - destruct Hcase as [Hx|Hk]; [discriminate|]. exact (Hc cl eq_refl k z 0 Hr Hk).
   - destruct e; try contradiction.
-    + exact (mntm_reject_visits_all m w fuel ys E k z Hr).
-    + exfalso. destruct S3 as [c [_ Hd]]. exact (valid_nonempty m Hvalid _ _ Hd).
+    exact (mntm_reject_visits_all m w fuel ys E k z Hr).
 Qed.
 
 End MNTMOrderTop.
